@@ -170,6 +170,32 @@ PROPS = {
             "The model writes the canonical text proved round-trippable in C11_*; the implementation wrote a different text, or "
             "parsing its own output did not give the value back (rt_* lines: expected 1).",
     },
+    "C12": {
+        "lean_modules": ["TemporalModel.Props.C12"],
+        "suites": ["c12"],
+        "level_text": "The Temporal / RFC 9557 grammar is written as a deterministic reader (Spec/Grammar.lean: years incl. "
+                      "-000000, extended/basic dates, times with 1-9 fraction digits and second 60, offsets with and without "
+                      "sub-minute precision, Z, time-zone and key=value annotations, critical flags; Spec/GrammarOps.lean: the rules "
+                      "of each type - no Z for plain types, offset or Z required for instants, ISO-only short year-month/month-day "
+                      "forms, the designator-less time ambiguity rule, month codes, offset identifiers, durations with cascading "
+                      "fractions). Proof over that reader, for every string: C12_no_negative_zero_year, C12_fraction_at_most_nine "
+                      "(1..9 digits, a tenth digit makes the fraction unreadable, value < 1 s), C12_values_wellformed (every "
+                      "accepted date / date-time / instant / duration is in range and valid), C12_plain_rejects_Z, "
+                      "C12_instant_requires, C12_annotation_rules (unknown critical key, critical duplicate calendars, first "
+                      "calendar wins), C12_digitsN, C12_month_code_zero, C12_short_forms. Tie: grammar-generated strings in every "
+                      "syntactic variant, 1-2 character mutations and cross-type strings (~26k/run) through FromStr of PlainDate, "
+                      "PlainDateTime, PlainTime, PlainYearMonth, PlainMonthDay, Instant, Duration, UtcOffset, MonthCode: verdict AND "
+                      "value compared with the reader.",
+        "level_note": "Trusted: Lean kernel (+propext, Classical.choice, Quot.sound); Spec/Grammar*.lean as my reading of the "
+                      "grammar (U+2212 is accepted as a minus sign, as in the grammar version the crate's parser follows; the "
+                      "crate's own UtcOffset reader is ASCII-only). The implementation's parser is the `ixdtf` 0.4.0 dependency plus "
+                      "temporal_rs' rules: six leniencies/strictnesses of ixdtf are recorded as known findings by region. "
+                      "ZonedDateTime / RelativeTo strings are exercised in C13 (tz_str) and the C03 sweep; Calendar::from_str and "
+                      "TimeZone::try_from_str reuse the same readers (swept in C03, round-tripped in C11).",
+        "why_difference_is_violation":
+            "The reader is the grammar (C12_* theorems state its type rules); the implementation accepted a string outside the "
+            "grammar, rejected one inside it, or assigned a different value.",
+    },
     "C13": {
         "lean_modules": ["TemporalModel.Props.C13"],
         "suites": ["c13"],
